@@ -21,6 +21,8 @@ from __future__ import annotations
 
 import ast
 import difflib
+import os
+import sys
 from collections import Counter
 
 from hsa.paths import canon_trace, summarise_block
@@ -118,6 +120,8 @@ class Equiv:
             segB, segA = B[i1:i2], A[j1:j2]
             tail = whole and i2 == len(B) and j2 == len(A)
             if not self.segment(segA, segB, tail):
+                if os.environ.get("HSA_EQUIV_DEBUG"):
+                    print("EQUIV-DEBUG segment differs:", [ast.unparse(x).split("\n")[0][:90] for x in segA][:3], "<->", [ast.unparse(x).split("\n")[0][:90] for x in segB][:3], file=sys.stderr)
                 return False
         return True
 
@@ -146,7 +150,18 @@ class Equiv:
                 # parameters of nested functions are local names of the enclosing function
                 return Equiv(_canon_params(a), _canon_params(b)).function()
         live = self.live_outside(segA, segB)
-        return _same(_fingerprint(segA, live, tail, self.captured), _fingerprint(segB, live, tail, self.captured))
+        fa, fb = _fingerprint(segA, live, tail, self.captured), _fingerprint(segB, live, tail, self.captured)
+        if os.environ.get("HSA_EQUIV_DEBUG") and not _same(fa, fb):
+            if fa is None or fb is None:
+                print("EQUIV-DEBUG leaf: no fingerprint", fa is None, fb is None, file=sys.stderr)
+            else:
+                for x in sorted(map(str, fa[0] - fb[0]))[:2]:
+                    print("EQUIV-DEBUG leaf cur:", x[:1500], file=sys.stderr)
+                for x in sorted(map(str, fb[0] - fa[0]))[:2]:
+                    print("EQUIV-DEBUG leaf ref:", x[:1500], file=sys.stderr)
+                if not fb[1] <= fa[1]:
+                    print("EQUIV-DEBUG leaf: reference asserts missing", fb[1] - fa[1], file=sys.stderr)
+        return _same(fa, fb)
 
 
     # -- partial normalisation: replace the equivalent segments of a function that is not equivalent as a whole
